@@ -264,3 +264,63 @@ Example C07_example_roll :
   fshift1 F9 z9 one9 add9 mul9 inv9 conj9 2 w9 [one9; w9 (-1)] x9 = Some [z9; one9] /\
   roll_list F9 z9 2 (-3) x9 = [z9; one9].
 Proof. vm_compute. split; reflexivity. Qed.
+
+(* ---- waveforms.wave_shift_corrmax: index arithmetic of the 'same'-mode correlation ----
+   xcorr_same_at N a b i = scipy.signal.correlate(a, b, 'same')[i] on integer signals. *)
+Local Open Scope Z_scope.
+
+(* For EVERY length N (either parity) the zero-lag entry is at index floor(N/2): it carries
+   the energy of the signal, and no entry of any correlation exceeds the mean energy. *)
+Theorem C07_corr_zero_lag_at_floor_half : forall (N : nat) (a b : nat -> Z) (i : nat),
+  xcorr_same_at Z 0 Z.add Z.mul N a a (N / 2) = sumn Z 0 Z.add (fun l => a l * a l) N /\
+  2 * xcorr_same_at Z 0 Z.add Z.mul N a b i
+    <= sumn Z 0 Z.add (fun l => a l * a l) N + sumn Z 0 Z.add (fun l => b l * b l) N.
+Proof. intros N a b i. split; [exact (xc_zero_lag N a) | exact (xc_bound N a b i)]. Qed.
+Print Assumptions C07_corr_zero_lag_at_floor_half.
+
+(* An impulse and its copy delayed by m samples (any sign), any N: the correlation is a
+   single peak at index floor(N/2) - m, np.argmax returns it, and the integer delay
+   floor(N/2) - argmax is exactly the applied m (same sign as the applied shift). *)
+Theorem C07_corr_impulse_peak_at_lag : forall (N q : nat) (m A : Z),
+  A <> 0 -> (q < N)%nat -> 0 <= Z.of_nat q + m < Z.of_nat N ->
+  0 <= Z.of_nat (N / 2) - m < Z.of_nat N ->
+  let a := impulse_list N q A in
+  let b := impulse_list N (Z.to_nat (Z.of_nat q + m)) A in
+  let i0 := Z.to_nat (Z.of_nat (N / 2) - m) in
+  xcorr_same Z 0 Z.add Z.mul a b = impulse_list N i0 (A * A) /\
+  argmax Z Z.leb (xcorr_same Z 0 Z.add Z.mul a b) = Some i0 /\
+  int_delay_of_peak N i0 = m.
+Proof. exact corr_peak_at_lag. Qed.
+Print Assumptions C07_corr_impulse_peak_at_lag.
+
+(* Any signal a and its copy b delayed by m with nothing pushed out of the window
+   (b_l = a_{l-m}, zero where l-m is outside; equal energies): the entry at index
+   floor(N/2) - m equals the energy and is a maximum of the correlation — for every N. *)
+Theorem C07_corr_delayed_copy_peaks_at_lag : forall (N : nat) (a b : nat -> Z) (m : Z),
+  (forall l, (l < N)%nat ->
+     b l = if inr N (Z.of_nat l - m) then a (Z.to_nat (Z.of_nat l - m)) else 0) ->
+  sumn Z 0 Z.add (fun l => b l * b l) N = sumn Z 0 Z.add (fun l => a l * a l) N ->
+  0 <= Z.of_nat (N / 2) - m < Z.of_nat N ->
+  xcorr_same_at Z 0 Z.add Z.mul N a b (Z.to_nat (Z.of_nat (N / 2) - m))
+    = sumn Z 0 Z.add (fun l => a l * a l) N /\
+  forall i, xcorr_same_at Z 0 Z.add Z.mul N a b i
+            <= xcorr_same_at Z 0 Z.add Z.mul N a b (Z.to_nat (Z.of_nat (N / 2) - m)).
+Proof. exact corr_delayed_copy_peak. Qed.
+Print Assumptions C07_corr_delayed_copy_peaks_at_lag.
+
+(* Re-alignment: it is spike2 (the second argument) that is shifted, by MINUS the returned
+   delay; for an integer delay m (where fshift is np.roll, C07_integer_shift_is_roll)
+   this undoes a roll by m exactly, for every length and every m. *)
+Theorem C07_resync_undoes_integer_delay : forall (C : Type) (c0 : C) (m : Z) (x : list C),
+  (1 <= length x)%nat ->
+  resync_int C c0 m (roll_list C c0 (length x) m x) = x.
+Proof. exact resync_undoes_roll. Qed.
+Print Assumptions C07_resync_undoes_integer_delay.
+
+Example C07_example_corr_odd_lengths :
+  (* lengths 7 = 3 mod 4 and 5 = 1 mod 4: delay 2 of an impulse *)
+  xcorr_same Z 0 Z.add Z.mul [0;3;0;0;0;0;0] [0;0;0;3;0;0;0] = [0;9;0;0;0;0;0] /\
+  int_delay_of_peak 7 1 = 2 /\
+  xcorr_same Z 0 Z.add Z.mul [0;3;0;0;0] [0;0;0;3;0] = [9;0;0;0;0] /\
+  int_delay_of_peak 5 0 = 2.
+Proof. vm_compute. repeat split. Qed.
